@@ -34,7 +34,7 @@ def probe_space(name, worlds, depth, probe):
         return case['init']['world'] + ':' + '>'.join(str(o[0]) for o in case['ops'])
 
     sp = Space(name, [({'world': w}, depth) for w in worlds], run_chunk=run_chunk, sig=sig,
-               bounds={'worlds': list(worlds), 'depth': depth, 'menu': 'the 25-operation menu of C02 (props/c02.py)',
+               bounds={'worlds': list(worlds), 'depth': depth, 'menu': 'the 28-operation menu of C02 (props/c02.py)',
                        'probe': 'oracle of this property evaluated on deep copies of the objects of every reached state'})
     sp.history_system = system
     return sp
